@@ -117,6 +117,24 @@ func specT1Int(b []byte, i int) int32 {
 //@ ensures [C20.int.form5] (x < -1131 || x > 1131) == (specT1Len(result, len(buf)) == 5)
 //@ ensures [C20.int.prefix] forall k :: 0 <= k && k < len(buf) ==> result[k] == old(buf[k])
 
+// A charstring number token in b[i:to] with value v: an integer in one of the
+// three integer formats, or "p q div" (div = 12 12) with q != 0.
+//@ define absle(v, b) = -b <= v && v <= b
+//@ define intAt(b, i, to, v) = b[i] >= 32 && to == i + specT1Len(b, i) && v == float64(specT1Int(b, i))
+//@ define fracAt(b, i, to, v) = b[i] >= 32 && b[i+specT1Len(b, i)] >= 32 && to == i + specT1Len(b, i) + specT1Len(b, i+specT1Len(b, i)) + 2 && b[to-2] == 12 && b[to-1] == 12 && specT1Int(b, i+specT1Len(b, i)) >= 1 && v == float64(specT1Int(b, i))/float64(specT1Int(b, i+specT1Len(b, i)))
+//@ define numAt(b, i, to, v) = intAt(b, i, to, v) || fracAt(b, i, to, v)
+
+//@ func appendNumber
+//@ safety C10
+//@ ensures opaque [C20.num.value] absle(x, 10000000) ==> numAt(result0, len(buf), len(result0), result1)
+//@ ensures opaque [C20.num.exact] float64(int32(x)) == x ==> result1 == x && intAt(result0, len(buf), len(result0), x)
+//@ ensures [C20.num.accuracy] absle(x, 10000000) ==> absle(result1 - x, 1.0/214)
+//@ ensures [C20.num.prefix] forall k :: 0 <= k && k < len(buf) ==> result0[k] == old(buf[k])
+//@ ensures [C20.num.grow] len(result0) > len(buf)
+//@ loop 1 invariant [C20.num] 1 <= q && q <= 108 && (q == 1 ==> bestDelta >= 1e300)
+//@ loop 1 invariant [C20.num] absle(x, 10000000) && q > 1 ==> 1 <= bestQ && bestQ <= 107 && absle(float64(bestP)/float64(bestQ) - x, bestDelta)
+//@ loop 1 invariant [C20.num] absle(x, 10000000) && q > 107 ==> bestDelta <= 1.0/214
+
 //@ func appendOp
 //@ safety C10
 //@ ensures [C20.op] (op < 256 ==> len(result) == len(buf) + 1 && result[len(buf)] == byte(op)) && (op >= 256 ==> len(result) == len(buf) + 2 && result[len(buf)] == byte(op >> 8) && result[len(buf)+1] == byte(op))
@@ -277,6 +295,19 @@ func fontWF(f *Font) bool {
 
 //@ typeinv Font fontWF
 
+// Path commands (Type 1 book 6.4: all path operands are relative to the current
+// point).  posX/posY is the current point the decoder will have after the
+// bytes written so far: it advances by exactly the values the emitted numbers
+// decode to (appendNumber's second result, contract C20.num.value), and after
+// every command it is within 1/214 of the command's end point -- deviations
+// do not accumulate along a path.
+//@ define near(a, b) = a - b < 0.000001 && b - a < 0.000001
+//@ define box2(c, x, y) = absle(x, 1000000) && absle(y, 1000000) && absle(c.Args[0], 1000000) && absle(c.Args[1], 1000000)
+//@ define box6(c, x, y) = box2(c, x, y) && absle(c.Args[2], 1000000) && absle(c.Args[3], 1000000) && absle(c.Args[4], 1000000) && absle(c.Args[5], 1000000)
+
+//@ define hvCond(c, x, y) = c.Op == OpCurveTo && near(c.Args[1], y) && c.Args[4] == c.Args[2]
+//@ define vhCond(c, x, y) = c.Op == OpCurveTo && !(near(c.Args[1], y) && c.Args[4] == c.Args[2]) && near(c.Args[0], x) && c.Args[5] == c.Args[3]
+
 // stemEnc: b[from:to] is "pos width op" in Type 1 number format (hstem = 1,
 // vstem = 3; Type 1 book section 6.4: the second operand is the width).
 //@ define stemEnc(b, from, to, pos, width, op) = specT1Int(b, from) == pos && specT1Int(b, from + specT1Len(b, from)) == width && to == from + specT1Len(b, from) + specT1Len(b, from + specT1Len(b, from)) + 1 && b[to-1] == op
@@ -290,6 +321,16 @@ func fontWF(f *Font) bool {
 //@ loop 2 back-when [C08.stem.v] stemEnc(buf, prev(len(buf)), len(buf), int32(g.VStem[prev(i)]), int32(g.VStem[prev(i)+1]) - int32(g.VStem[prev(i)]), 3) && i == prev(i) + 2
 //@ loop 2 back-when [C08.stem.v.prefix] forall k :: 0 <= k && k < prev(len(buf)) ==> buf[k] == prev(buf[k])
 //@ loop 3 invariant g != nil
+//@ loop 3 back-when [C20.path.nodrift.line,C10.quant.line] (cmd.Op == OpMoveTo || cmd.Op == OpLineTo) && box2(cmd, prev(posX), prev(posY)) ==> absle(posX - cmd.Args[0], 1.0/214) && absle(posY - cmd.Args[1], 1.0/214)
+//@ loop 3 back-when [C20.path.nodrift.curve,C10.quant.curve] cmd.Op == OpCurveTo && box6(cmd, prev(posX), prev(posY)) ==> absle(posX - cmd.Args[4], 1.0/214) && absle(posY - cmd.Args[5], 1.0/214)
+//@ loop 3 back-when [C20.path.track.h] (cmd.Op == OpMoveTo || cmd.Op == OpLineTo) && near(cmd.Args[1], prev(posY)) ==> posX == prev(posX) + dx && posY == prev(posY)
+//@ loop 3 back-when [C20.path.track.v] (cmd.Op == OpMoveTo || cmd.Op == OpLineTo) && !near(cmd.Args[1], prev(posY)) && near(cmd.Args[0], prev(posX)) ==> posX == prev(posX) && posY == prev(posY) + dy
+//@ loop 3 back-when [C20.path.track.r] (cmd.Op == OpMoveTo || cmd.Op == OpLineTo) && !near(cmd.Args[1], prev(posY)) && !near(cmd.Args[0], prev(posX)) ==> posX == prev(posX) + dx && posY == prev(posY) + dy
+//@ loop 3 back-when [C20.path.track.hv] hvCond(cmd, prev(posX), prev(posY)) ==> posX == prev(posX) + local(dxa, 1) + local(dxb, 1) && posY == prev(posY) + local(dyb, 1) + local(dyc, 1)
+//@ loop 3 back-when [C20.path.track.vh] vhCond(cmd, prev(posX), prev(posY)) ==> posX == prev(posX) + local(dxb, 2) + local(dxc, 1) && posY == prev(posY) + local(dya, 1) + local(dyb, 2)
+//@ loop 3 back-when [C20.path.track.rr] cmd.Op == OpCurveTo && !hvCond(cmd, prev(posX), prev(posY)) && !vhCond(cmd, prev(posX), prev(posY)) ==> posX == prev(posX) + local(dxa, 2) + local(dxb, 3) + local(dxc, 2) && posY == prev(posY) + local(dya, 2) + local(dyb, 3) + local(dyc, 2)
+//@ loop 3 back-when [C20.path.close] cmd.Op == OpClosePath ==> posX == prev(posX) && posY == prev(posY) && len(buf) == prev(len(buf)) + 1 && buf[len(buf)-1] == 9
+//@ loop 3 back-when [C20.path.prefix] forall k :: 0 <= k && k < prev(len(buf)) ==> buf[k] == prev(buf[k])
 
 //@ func (*Font).encodeCharstrings
 //@ loop 1 invariant f != nil && charStrings != nil
